@@ -10,9 +10,12 @@ NAMES = ["a", "b", "c", "d"]
 # (pattern text) used inside generated *schemas*; the regex mechanism has its own AST-driven generator
 PATTERNS = ["[a-z]", "^[a-z]+$", "^[a-z]*$", "^(ab)+$", "^a$", "^[ab]$", "[0-9]+", "^[a-z]+", "[a-z]+$", "^[a-z]{1,4}$",
             "^a[0-9]*$", "^-[a-z]{1,3}-$", "^[a-c]{1,2}-[0-9]{1,3}$", "a|b", "^.+$", "^\\d+$", "^(a|bc)*$", "^ab$",
-            "\\A[a-z]+\\Z", "^[ab]?$"]
+            "\\A[a-z]+\\Z", "^[ab]?$",
+            # assertions that are not begin/end-of-string anchors (word boundaries), alone and mixed with real anchors
+            "\\b[a-z]+\\b", "\\b[a-z]{1,4}\\b", "^[a-z]+\\b", "\\b[0-9]+$", "\\B[a-z]+\\B", "\\b[ab]\\b", "\\b[a-z]+", "\\ba[0-9]*b*\\b"]
 STRINGS = ["", "a", "b", "ab", "abc", "aaaa", "abab", "ababab", "aaaaaaa", "0", "12", "a1", "-a-", "-abc-", "a-1", "ab-12",
-           "abcd-1234", "a-", "é", "A", "a b", "xaz", "1a1", "abcde", "zzzzzzzzzz"]
+           "abcd-1234", "a-", "é", "A", "a b", "xaz", "1a1", "abcde", "zzzzzzzzzz",
+           "ab cd", "a b c", "abc-abc", "-ab-cd-", "ab 12", "12 ab", "a1 b2 c3", "abcdef ghi"]
 
 
 def gen_string_schema(rng):
@@ -227,8 +230,8 @@ LENS = [None, 0, 1, 2, 3, 5]
 
 
 def gen_pattern(rng):
-    lead = rng.choice(["", "^", "^", "^", "\\A", "\\b"])
-    trail = rng.choice(["", "$", "$", "$", "\\Z", "\\b"])
+    lead = rng.choice(["", "^", "^", "^", "\\A", "\\b", "\\b", "\\B"])
+    trail = rng.choice(["", "$", "$", "$", "\\Z", "\\b", "\\b", "\\B"])
     n = rng.choice([1, 1, 1, 2, 2, 3, 4])
     parts = []
     for _ in range(n):
@@ -328,14 +331,122 @@ def gen_parameters(rng, version, nn):
     return path_vars, out
 
 
-def gen_document(rng, version="3.0", body_depth=2, with_ref=True):
+MEDIA_TYPES_PLAIN = ["application/json", "text/plain", "application/xml", "application/x-yaml"]
+MEDIA_TYPES_FORM = ["application/x-www-form-urlencoded", "multipart/form-data"]
+
+
+def gen_form_schema(rng, nn):
+    """an object schema with primitive members (what form payloads are)"""
+    names = rng.sample(NAMES, rng.randint(1, 3))
+    s = {"properties": {n: gen_primitive_schema(rng, nn, "query") for n in names}}
+    if rng.random() < 0.7:
+        s["type"] = "object"
+    if rng.random() < 0.7:
+        s["required"] = rng.sample(names, rng.randint(1, len(names)))
+    if rng.random() < 0.5:
+        s["additionalProperties"] = False
+    return s
+
+
+def gen_alternatives(rng, nn, body_depth):
+    """[(media type, schema | None)] for an OpenAPI 3 `requestBody.content` with two or three media types whose schemas
+    differ (the shape real documents have: a JSON object, a plain-text code, a form)"""
+    k = rng.choice([2, 2, 3])
+    mts = rng.sample(MEDIA_TYPES_PLAIN + MEDIA_TYPES_FORM, k)
+    out = []
+    for mt in mts:
+        r = rng.random()
+        if mt in MEDIA_TYPES_FORM:
+            sch = gen_form_schema(rng, nn)
+        elif mt == "text/plain" and r < 0.7:
+            sch = gen_string_schema(rng)
+            sch.pop("enum", None)
+        elif r < 0.08:
+            sch = None  # MediaType object without `schema`: any payload
+        elif r < 0.16 and out and out[-1][1] is not None and out[-1][0] not in MEDIA_TYPES_FORM:
+            sch = copy.deepcopy(out[-1][1])  # the same schema under another media type
+        else:
+            sch = gen_oas_schema(rng, body_depth, nn)
+            if sch.get("type") not in ("object", "array") and rng.random() < 0.4:
+                sch = {"type": "object", "properties": {"a": sch, "id": {"type": "integer", "minimum": 1, "maximum": 1000}},
+                       "required": ["id"], "additionalProperties": False}
+        out.append((mt, sch))
+    return out
+
+
+def add_security(rng, raw, version):
+    """declare 1-2 security schemes and require them for every operation; returns [(location, parameter name)] of the
+    parameters that generation adds when `with_security_parameters` is on"""
+    pool = [("query", "api_key"), ("header", "X-Api-Key"), ("http", None)] + ([("cookie", "auth_ck")] if version != "2.0" else [])
+    picks = rng.sample(pool, rng.randint(1, 2))
+    schemes, expect = {}, []
+    for i, (loc, name) in enumerate(picks):
+        if loc == "http":
+            schemes[f"s{i}"] = {"type": "basic"} if version == "2.0" else {"type": "http", "scheme": rng.choice(["bearer", "basic"])}
+            expect.append(("header", "Authorization"))
+        else:
+            schemes[f"s{i}"] = {"type": "apiKey", "in": loc, "name": name}
+            expect.append((loc, name))
+    if version == "2.0":
+        raw["securityDefinitions"] = schemes
+    else:
+        raw.setdefault("components", {})["securitySchemes"] = schemes
+    raw["security"] = [{k: []} for k in schemes]
+    return expect
+
+
+def gen_document(rng, version="3.0", body_depth=2, with_ref=True, multi=0.0, security=0.0):
+    """`multi`: probability that the operation accepts several payload alternatives (OpenAPI 3: several media types with
+    their own schemas; Swagger 2.0: a `consumes` list for a body parameter, or `formData` parameters)"""
     nn = "x-nullable" if version == "2.0" else "nullable"
     path_vars, params = gen_parameters(rng, version, nn)
     path = "/r" + "".join("/{" + v + "}" for v in path_vars)
     op = {"parameters": [d for _, d in params], "responses": {"200": {"description": "OK"}}}
     body = None
+    bodies = None
+    form_params = None
     comps = {}
-    if rng.random() < 0.75:
+    if multi and rng.random() < multi:
+        required = rng.random() < 0.7
+        if version == "2.0":
+            if rng.random() < 0.5:
+                body = gen_oas_schema(rng, body_depth, nn)
+                mts = rng.sample(MEDIA_TYPES_PLAIN, 2)
+                op["parameters"].append({"name": "body", "in": "body", "required": required, "schema": body})
+                op["consumes"] = mts
+                bodies = [(mt, body) for mt in mts]
+            else:
+                names = rng.sample(NAMES, rng.randint(1, 3))
+                form_params = []
+                for n in names:
+                    sch = gen_primitive_schema(rng, nn, "query")
+                    sch.pop(nn, None) if rng.random() < 0.5 else None
+                    d = {"name": n, "in": "formData", **sch}
+                    d.setdefault("type", "string")
+                    if rng.random() < 0.5:
+                        d["required"] = rng.random() < 0.8
+                    form_params.append(d)
+                op["parameters"] += form_params
+                r = rng.random()
+                if r < 0.4:
+                    op["consumes"] = list(MEDIA_TYPES_FORM) if rng.random() < 0.5 else list(reversed(MEDIA_TYPES_FORM))
+                elif r < 0.7:
+                    op["consumes"] = [rng.choice(MEDIA_TYPES_FORM)]
+                mts = op.get("consumes") or ["multipart/form-data"]
+                body = {"type": "object", "properties": {}, "additionalProperties": False}
+                for d in form_params:
+                    body["properties"][d["name"]] = {k: v for k, v in d.items() if k not in ("name", "in", "required", "description")}
+                req = [d["name"] for d in form_params if d.get("required")]
+                if req:
+                    body["required"] = req
+                bodies = [(mt, body) for mt in mts]
+                required = True
+        else:
+            alts = gen_alternatives(rng, nn, body_depth)
+            op["requestBody"] = {"required": required, "content": {mt: ({} if sch is None else {"schema": sch}) for mt, sch in alts}}
+            bodies = [(mt, {} if sch is None else sch) for mt, sch in alts]
+            body = bodies[0][1]
+    elif rng.random() < 0.75:
         body = gen_oas_schema(rng, body_depth, nn)
         if body.get("type") not in ("object", "array") and rng.random() < 0.5:
             body = {"type": "object", "properties": {"a": body, "b": gen_oas_schema(rng, 1, nn, top=False)},
@@ -359,4 +470,12 @@ def gen_document(rng, version="3.0", body_depth=2, with_ref=True):
                "paths": {path: {"post": op}}}
         if comps:
             raw["components"] = {"schemas": comps}
-    return {"raw": raw, "path": path, "method": "POST", "params": params, "body": body, "nn": nn, "version": version}
+    doc = {"raw": raw, "path": path, "method": "POST", "params": params, "body": body, "nn": nn, "version": version}
+    if security and rng.random() < security:
+        doc["security"] = add_security(rng, raw, version)
+    if bodies is not None:
+        doc["bodies"] = bodies
+        doc["body_required"] = required
+        if form_params is not None:
+            doc["form_params"] = form_params
+    return doc
